@@ -177,7 +177,25 @@ pub fn record(mode: &str, seed: u64, n: usize, out: &mut Out) {
             }
             if m.header.ecu_id.is_some() { m.header.ecu_id = Some(r.pick(&pool).to_string()); }
             // the id changes do not change any length
-            stream.extend(gen::ser(&m));
+            let mut b = gen::ser(&m);
+            if r.one_in(5) && !b.is_empty() {
+                // id fields that are not valid UTF-8 (Latin-1 text, a multi-byte character cut by the field or by a NUL): the id is the
+                // valid prefix, the field is still 4 bytes wide
+                let bad: [[u8; 4]; 5] = [[b'M', 0xFC, b'1', 0], [0xC3, b'A', 0, 0], [b'a', b'b', 0xE2, 0x82], [0xFF, 0xFF, 0xFF, 0xFF], [b'O', b'K', 0xC3, 0]];
+                let o = if sh { 16 } else { 0 };
+                let htyp = b[o];
+                let std = 4 + 4 * ((htyp >> 2 & 1) + (htyp >> 3 & 1) + (htyp >> 4 & 1)) as usize;
+                let mut spots = vec![];
+                if sh { spots.push(12); }
+                if htyp & 4 != 0 { spots.push(o + 4); }
+                if htyp & 1 != 0 { spots.push(o + std + 2); spots.push(o + std + 6); }
+                if !spots.is_empty() {
+                    let at = spots[r.below(spots.len() as u64) as usize];
+                    let pat = bad[r.below(bad.len() as u64) as usize];
+                    if at + 4 <= b.len() { b[at..at + 4].copy_from_slice(&pat); }
+                }
+            }
+            stream.extend(b);
             bounds.push(stream.len());
         }
         let c1 = r.below(nm as u64 + 1) as usize;
